@@ -328,6 +328,18 @@ class C03(Prop):
             got2 = Version(cand) in sp.Specifier(clause, prereleases=True)
             if got2 != want:
                 return False, f"Version({cand!r}) in Specifier({clause!r}, prereleases=True) = {got2}, PEP 440 says {want}"
+            # the answer is about the candidate's *value*: a Version object that has already been hashed, compared and sorted,
+            # or asked about other specifiers (and so carries whatever the library caches on it), gets the same answer; so does
+            # a repeated question and a question put through a one-clause SpecifierSet
+            used = Version(cand)
+            hash(used), used == Version("0"), used < Version("1!0"), sorted([used, Version("0.dev0"), Version(cand)]), {used: 1}
+            for other in ("<1!0", ">0.dev0", "==0", "!=0", "<=0", ">=0", "~=0.0", "===x"):
+                sp.Specifier(other).contains(used, prereleases=True)
+            for how, g in (("a Version used before", spec.contains(used, prereleases=True)), ("asked twice", spec.contains(used, prereleases=True)),
+                           ("SpecifierSet of the clause", sp.SpecifierSet([sp.Specifier(clause)]).contains(used, prereleases=True)),
+                           ("filter", bool(list(spec.filter([used], prereleases=True))))):
+                if g != want:
+                    return False, f"Specifier({clause!r}) on Version({cand!r}) ({how}) = {g}, PEP 440 says {want}"
             return True, ""
         if law == "in_operator_final_candidate":
             c = R.norm(inp["c"])
